@@ -204,6 +204,15 @@ Proof.
   - intros x [].
   - intros a [].
 Qed.
+(* the same from the declarative well-formedness *)
+Corollary run_main_correct_wf pl : wf pl [] [] -> forall av,
+  run_graph pl [] av = map (ev (bindv (gargsn (pgid pl)) av)) (gresn (pgid pl)).
+Proof.
+  intros H av. pose proof (run_correct pl [] [] [] H) as R.
+  rewrite <- (app_nil_r (bindv (gargsn (pgid pl)) av)). apply R.
+  - intros x [].
+  - intros a [].
+Qed.
 End Lin.
 
 (* ---------- instantiation with a reflected program ---------- *)
@@ -273,6 +282,18 @@ Proof.
   intros H av. unfold check_plan in H. apply andb_prop in H. destruct H as [_ Hwf].
   unfold run_plan, meaning.
   pose proof (run_main_correct val dv (is_argP p) (insP p main) (subsP p main) (gargsP p) (gresP p) (noutsP p) (opsemP val dv opsem)
+                opsemP_ext (rankP p main)
+                (fun n x Ha Hx => match x as x0 return In (Some x0) (insP p main n) -> rankv (rankP p main) x0 < rankP p main n with V m o => fun Hx0 => rank_insP n (V m o) Ha Hx0 end Hx)
+                (fun n g0 r Ha Hg Hr => match r as r0 return In r0 (gresP p g0) -> rankv (rankP p main) r0 < rankP p main n with V m o => fun Hr0 => rank_subsP n g0 (V m o) Ha Hg Hr0 end Hr)
+                (plan_of_graph p main g) Hwf av) as R.
+  assert (Hid : pgid (plan_of_graph p main g) = main) by (destruct g; reflexivity).
+  rewrite Hid in R. rewrite R. apply map_ext. intros [n o]. reflexivity.
+Qed.
+Theorem plan_sem_wf g : wf (is_argP p) (insP p main) (subsP p main) (gargsP p) (gresP p) (noutsP p) (plan_of_graph p main g) [] [] -> forall av,
+  run_plan p main val dv opsem (plan_of_graph p main g) av = map (meaning p main val dv opsem (bindv val dv (gargsP p main) av)) (gresP p main).
+Proof.
+  intros Hwf av. unfold run_plan, meaning.
+  pose proof (run_main_correct_wf val dv (is_argP p) (insP p main) (subsP p main) (gargsP p) (gresP p) (noutsP p) (opsemP val dv opsem)
                 opsemP_ext (rankP p main)
                 (fun n x Ha Hx => match x as x0 return In (Some x0) (insP p main n) -> rankv (rankP p main) x0 < rankP p main n with V m o => fun Hx0 => rank_insP n (V m o) Ha Hx0 end Hx)
                 (fun n g0 r Ha Hg Hr => match r as r0 return In r0 (gresP p g0) -> rankv (rankP p main) r0 < rankP p main n with V m o => fun Hr0 => rank_subsP n g0 (V m o) Ha Hg Hr0 end Hr)
